@@ -540,8 +540,68 @@ def run_multiindex(ctx):
                 c.fail(res)
 
 
+# ---- fifth family: the appended frame's numeric dtype differs from the dataset column's, its values fit ------------------------
+G_ND = "c07.numeric_dtype"
+ND_PAIRS = [("float64", "int64"), ("float64", "int32"), ("float64", "float32"), ("int64", "int32"), ("int64", "int8"), ("float32", "int16")]
+
+
+def c07_nd_case(spec):
+    """-> None | text.  The dataset column keeps its type; the appended values (whole numbers every listed dtype holds exactly)
+    must read back as the same numbers."""
+    import os
+    fp = import_fastparquet()
+    scheme, api, (col, app) = spec
+    try:
+        with tmpdir("verif-c07nd-") as root:
+            path = os.path.join(root, "x.parq" if scheme == "simple" else "ds")
+            first = pd.DataFrame({"x": np.array([0, 1, 2, 3], dtype=col), "k": np.arange(4, dtype="int64"), "p": ["a", "b", "a", "b"]})
+            new = pd.DataFrame({"x": np.array([7, 8, 9, 100], dtype=app), "k": np.arange(4, 8, dtype="int64"), "p": ["a", "b", "b", "b"]})
+            kw = {"partition_on": ["p"]} if api == "overwrite" else {}
+            fp.write(path, first, file_scheme=scheme, write_index=False, **kw)
+            if api == "write_row_groups":
+                fp.ParquetFile(path).write_row_groups(new)
+                want = list(first["x"]) + list(new["x"])
+            elif api == "overwrite":
+                fp.write(path, new, file_scheme=scheme, append="overwrite", write_index=False, **kw)
+                want = None                      # compared as a multiset of (k, x): partitions a, b are both replaced
+            else:
+                fp.write(path, new, file_scheme=scheme, append=True, write_index=False)
+                want = list(first["x"]) + list(new["x"])
+            out = fp.ParquetFile(path).to_pandas()
+            if want is None:
+                got, exp = sorted(zip(map(int, out["k"]), map(float, out["x"]))), sorted(zip(map(int, new["k"]), map(float, new["x"])))
+            else:
+                got, exp = [float(v) for v in out["x"]], [float(v) for v in want]
+            if got != exp:
+                return f"dataset column {col}, frame column {app}: read {got[:8]} != written {exp[:8]} (dtype read: {out['x'].dtype})"
+            if str(out["x"].dtype) != col:
+                return f"dataset column {col} reads back as {out['x'].dtype} after a {app} frame was added"
+        return None
+    except Exception as e:
+        return f"raised {type(e).__name__}: {str(e)[:200]}"
+
+
+def run_numeric_dtype(ctx):
+    from runtime.harness import robust_map, WorkerDied
+    ctx.bounded_group(G_ND, rule=(
+        f"dataset column dtype / appended frame column dtype in {ND_PAIRS} (appended values 7, 8, 9, 100: exact in every listed dtype) x "
+        "simple | hive x write(append=True) | ParquetFile.write_row_groups | write(append='overwrite') on a partitioned hive dataset: "
+        "the rows added read back as the numbers written and the column keeps the dataset's dtype"))
+    specs = [(scheme, api, pair) for pair in ND_PAIRS for scheme, api in (("simple", "append"), ("hive", "append"), ("hive", "write_row_groups"),
+                                                                          ("hive", "overwrite"))]
+    for spec, res in zip(specs, robust_map(c07_nd_case, specs, 8)):
+        feats = {"scheme": spec[0], "api": spec[1], "dataset_dtype": spec[2][0], "frame_dtype": spec[2][1]}
+        with Case(ctx, G_ND, feats, nontrivial=True,
+                  contract="after the append: the added rows read back as the numbers written, in the dataset column's dtype") as c:
+            if isinstance(res, WorkerDied):
+                c.fail(res.what())
+            elif res is not None:
+                c.fail(res)
+
+
 def run_bounded(ctx):
     run_multiindex(ctx)
+    run_numeric_dtype(ctx)
     ctx.bounded_group(G, rule=(
         "histories = original write + 1..3 appends (thorough: ..5, seeded sample) over the batch alphabet "
         f"{ {k: v[:2] + (list(v[2]),) for k, v in BATCHES.items()} } (rows, nulls, category labels): all sequences of "
